@@ -8,6 +8,7 @@ import (
 	"os"
 	"time"
 
+	"github.com/jmsadair/raft/verifshim/vsched"
 	"verif/mc/common"
 	"verif/mc/explore"
 	"verif/mc/monitor"
@@ -61,11 +62,11 @@ func init() {
 		Steps: [][]sim.Event{sim.MustParse("deliver 0>2:AE#5", "deliver 0>2:IS#0"), sim.MustParse("beat n0"), sim.MustParse("rt 0>2:AE#8"), sim.MustParse("crash n2"), sim.MustParse("restart n2")}})
 
 	checks["C10"] = func(prop, tier string) int {
-		pl := []schedPlan{{"snap1-seq", 2, 40}, {"snap1-par", 1, 30}, {"snap1-big", 1, 20}, {"inst3-restore", 2, 40}, {"inst3-compact", 2, 40}}
+		pl := []schedPlan{{"snap1-seq", 3, 90}, {"snap1-par", 2, 60}, {"snap1-big", 2, 60}, {"inst3-restore", 3, 90}, {"inst3-compact", 3, 90}}
 		if tier == "thorough" {
-			pl = []schedPlan{{"snap1-seq", 3, 400}, {"snap1-par", 2, 300}, {"snap1-big", 2, 200}, {"inst3-restore", 3, 400}, {"inst3-compact", 3, 400}}
+			pl = []schedPlan{{"snap1-seq", 4, 600}, {"snap1-par", 3, 500}, {"snap1-big", 3, 400}, {"inst3-restore", 4, 600}, {"inst3-compact", 4, 600}}
 		}
-		cl := []plan{{"snap3-d2", 60}, {"memsnap3-d2", 60}, {"stalesuffix3-d2", 30}}
+		cl := []plan{{"snap3-d2", 80}, {"memsnap3-d2", 70}, {"stalesuffix3-d2", 65}}
 		if tier == "thorough" {
 			cl = []plan{{"snap3-d3", 500}, {"memsnap3-d3", 400}, {"bigsnap3-d2", 200}, {"stalesuffix3-d3", 300}}
 		}
@@ -299,8 +300,12 @@ func sched1() {
 		fmt.Sscan(a, &x)
 		ch = append(ch, x)
 	}
+	if os.Getenv("VERIF_TRACE") != "" {
+		vsched.Trace = func(t *vsched.Task, why string) { fmt.Printf("  run %s (%s)\n", t.String(), why) }
+	}
 	o := sched.RunOnce(sc, ch)
-	fmt.Printf("points=%d steps=%d final=%s\n", len(o.Points), o.Steps, o.Final)
+	fmt.Printf("points=%d steps=%d final=%s diverged=%q\n", len(o.Points), o.Steps, o.Final, o.Diverged)
+	fmt.Printf("alternatives=%v\n", o.Alternatives())
 	for _, v := range o.Violations {
 		fmt.Println("VIOLATION", v.Property, v.Signature, v.Detail)
 	}
